@@ -253,7 +253,11 @@ class Daemon:
         if offset is not None:
             data = frame[:offset]
         elif sent == 99:
-            data = struct.pack("!L", len(payload) + 5) + payload
+            # oversized length header: a little more than the payload, and the large values (beyond any sane frame,
+            # sign bit set, all ones), in rotation
+            self.huge_i = getattr(self, "huge_i", 0) + 1
+            hdr = [len(payload) + 5, (1 << 28) + 1, 1 << 31, 0xFFFFFFFF, (1 << 24) + 7][self.huge_i % 5]
+            data = struct.pack("!L", hdr) + payload
         elif sent >= L:
             data = frame
         elif sent <= 4:
